@@ -890,6 +890,43 @@ func c01CSV(c *Ctx, r *Report) {
 		})
 	}
 	visit(dr.Body, 0)
+	// … unless the continuation puts the CR back
+	restoresCR := false
+	ast.Inspect(dr.Body, func(n ast.Node) bool {
+		if call, ok := n.(*ast.CallExpr); ok {
+			if id, ok := call.Fun.(*ast.Ident); ok && id.Name == "append" {
+				for _, a := range call.Args[1:] {
+					if v, ok := constIntOf(linfo, a); ok && v == '\r' {
+						restoresCR = true
+					}
+				}
+			}
+		}
+		return true
+	})
+	if restoresCR {
+		nested = 0
+	}
+	// the two sides must at least agree with each other: while the quoted writer turns LF into CR LF
+	// under --ors crlf, the reader has to turn CR LF inside quotes back into LF
+	writerConverts := false
+	if cc := cases['\n']; cc != nil {
+		ast.Inspect(cc, func(n ast.Node) bool {
+			if bl, ok := n.(*ast.BasicLit); ok && bl.Kind == token.STRING {
+				if s, ok := constStrOf(info, bl); ok && s == "\r\n" {
+					writerConverts = true
+				}
+			}
+			return true
+		})
+	}
+	r.Rule("R01.3e", "CR LF mode is at least self-consistent: as long as the quoted-field writer writes CR LF for an embedded LF under UseCRLF, the reader's quoted-field continuation turns CR LF back into LF (R01.3c asks for neither side to rewrite; this rule asks that one side does not stop alone)")
+	if writerConverts {
+		r.Check(rewrites && nested > 0, "R01.3e", "reader undoes the writer's LF → CR LF inside quotes", c.Rel(dr.Pos()), "readLine normalises on the quoted continuation path",
+			"the quoted-field writer still writes CR LF for an embedded LF under --ors crlf, but the reader no longer turns CR LF inside quotes back into LF: a cell with an embedded newline written with --ors crlf reads back with an extra CR")
+	} else {
+		r.OK("R01.3e", "reader undoes the writer's LF → CR LF inside quotes", c.Rel(dr.Pos()), "the writer does not convert")
+	}
 	r.Check(!(rewrites && nested > 0), "R01.3c", "go-csv readRecord: quoted continuation reads through the CRLF-normalising readLine", c.Rel(dr.Pos()), "no rewrite inside quotes",
 		"readLine replaces a trailing CR LF by LF and is also the line source for the continuation of a quoted field: a CR LF inside quotes — legal RFC 4180 data, and what Miller's own writer produces for such a value — is read back as LF")
 	// doubled quote on read
